@@ -916,7 +916,7 @@ def generated_variant():
 
 def run(chk):
     quick = chk.tier == "quick"
-    chk.prove(["extract/Extract_C07.vo"], extra_props=["Properties_C07_source.v"])
+    chk.prove(["extract/Extract_C07.vo"], extra_props=["Properties_C07_source.v", "Properties_C07_statics.v"])
     chk.trusted += ["extraction: ExtrOcamlBasic, ExtrOcamlNatInt (nat -> OCaml int; indices < 10, state labels < 2^8); Z and Q stay inductive",
                     "ocaml/driver_c07.ml, harness/h_c07.cpp + ed_common.h (scenario interpreter), Python comparison with exact fractions",
                     "the Hamiltonian polynomial and the candidate polynomials are taken from the harness (HPOLY / CAND records); that HPOLY is the "
